@@ -75,6 +75,17 @@ def run(ctx):
         c["oracle"] = None
         c["lazy_subsets"] = [{"names": []}]
     cases += fam
+    # Python-equal scalar constants of different sign / type: each is reported AND exported as written
+    for i in range(24 if ctx.tier == "quick" else 200):
+        d = rnd.choice(["float64", "float32"])
+        x = ops.tensor(rnd, d, [rnd.choice([1, 2, 3])], "small")
+        z1, z2 = rnd.choice([("0.0", "-0.0"), ("-0.0", "0.0")])
+        form = rnd.choice([f"p_ = ndx.asarray(np.{d}({z1})); q_ = ndx.asarray(np.{d}({z2})); out = [q_, x * q_, p_]",
+                           f"p_ = ndx.asarray(np.{d}({z1})) * 1; q_ = ndx.asarray(np.{d}({z2})); out = [q_.copy(), q_ + q_, p_]",
+                           f"p_ = x * np.{d}({z1}); out = [x * np.{d}({z2}), ndx.asarray(np.{d}({z2})), p_]"])
+        c = {"id": f"FZ-{i}", "inputs": {"x": x}, "impl": form, "oracle": None, "tol": [0, 0], "strict_zero": True,
+             "meta": {"func": "signed-zero-constants", "dtype": d, "dclass": "float"}, "lazy_subsets": [{"names": []}, {"names": ["x"], "feeds": [{"x": x}]}]}
+        cases.append(c)
     res = core.run_cases("harness.h_ops", cases, workers=14, per_case_timeout=180)
     folded = sound = 0
     for c in cases:
@@ -97,16 +108,26 @@ def run(ctx):
                     ctx.finding(family.attrs_of(c, "not-folded", "traced"), f"all inputs hold data but the result reports no value or the graph has compute nodes {extra}: {c['impl'][:120]}", family.replay_of(c, r, "all-eager"))
                 else:
                     folded += 1
+                # ... and the constants wired to the outputs are the reported values
+                for run_ in tr.get("runs", []):
+                    if "ok" in run_:
+                        for m, v in zip(metas, family.flatten_val(run_["ok"])):
+                            why = m and m.get("has_value") and ops.cmp_arrays(m["value"], v, c["tol"][0], c["tol"][1], strict_zero=c.get("strict_zero", False))
+                            if why:
+                                ctx.finding(family.attrs_of(c, "folded-value-differs", "traced"), f"all inputs hold data: the reported value differs from what the exported constants produce ({why}): {c['impl'][:120]}", family.replay_of(c, r, "traced"))
                 continue
             # soundness: a reported value must be what the model produces for EVERY assignment
-            for m in metas:
-                if not m or not m.get("has_value"):
+            for run_ in tr.get("runs", []):
+                if "ok" not in run_:
                     continue
-                for run_ in tr.get("runs", []):
-                    if "ok" not in run_:
+                vals_ = family.flatten_val(run_["ok"])
+                if len(vals_) != len(metas):
+                    continue
+                for m, v in zip(metas, vals_):
+                    if not m or not m.get("has_value"):
                         continue
-                    for v in family.flatten_val(run_["ok"]):
-                        why = ops.cmp_arrays(m["value"], v, c["tol"][0], c["tol"][1])
+                    if True:
+                        why = ops.cmp_arrays(m["value"], v, c["tol"][0], c["tol"][1], strict_zero=c.get("strict_zero", False))
                         if why:
                             ctx.finding(family.attrs_of(c, "unsound-value", "traced"), f"an array reports a value although its exported model produces something else for another placeholder assignment ({why}): {c['impl'][:120]}", family.replay_of(c, r, "traced:" + ",".join(sub["names"])))
                         else:
